@@ -1,6 +1,6 @@
 (* Props/C02.v — Deletes touch only files agentpack itself recorded as managed.
    Statements only; proofs in Proofs/DeployP.v. *)
-From AP Require Import Base.Str Gen.Tables Model.Deploy Proofs.DeployP.
+From AP Require Import Base.Str Gen.Tables Model.Deploy Proofs.DeployP Proofs.ConvergeP Proofs.RollbackP.
 Open Scope N_scope.
 
 (* a delete is planned only for a path in the managed set that is absent from the desired state
@@ -76,3 +76,13 @@ Example C02_nonvacuous :
   managed_for_plan w [r] None = [(s "codex", root ++ [s "prompts"; s "a.md"])] /\
   map c_op (plan f [] (managed_for_plan w [r] None)) = [PDelete].
 Proof. vm_compute. split; reflexivity. Qed.
+
+(* rollback deletes only files that agentpack's own snapshot records list: managed by the current
+   head snapshot and not by the chosen one *)
+Theorem C02_rollback_removes_only_recorded : forall w id w' p,
+  rollback w id = (RbOk, w') -> files w p <> None -> files w' p = None ->
+  exists h cur tgt e, head_of (snaps w) = Some h /\ nth_error (snaps w) h = Some cur /\
+                      nth_error (snaps w) id = Some tgt /\
+                      In e (sn_managed cur) /\ mpath e = p /\ mem_tpc (mtp e) (sn_managed tgt) = false.
+Proof. exact rollback_removes_only_head_managed. Qed.
+Print Assumptions C02_rollback_removes_only_recorded.
